@@ -565,6 +565,42 @@ def sentinel_twins(check: Check, repo: Repo) -> None:
     check.floor(rule, 6, "sentinel identity tests")
 
 
+def _edit_arms(repo: Repo):
+    """The two arms of visit()'s edit application: (anchor, array_body, node_body, scope_function, name of the edits list).
+    Either `if is_edited: if in_array: <array arm> else: <node arm>` in visit() itself, or both arms moved wholesale into a
+    module-level helper that receives the edits and the in_array flag (`if flag: ...; return` + rest, or if/else)."""
+    fn = repo.func("language.visitor", "visit")
+    edited = [n for n in walk_body(fn) if isinstance(n, ast.If) and unparse(n.test) == "is_edited"]
+    if len(edited) != 1:
+        raise AnalysisError("visit(): `if is_edited:` block not found")
+    arms_if = [s for s in edited[0].body if isinstance(s, ast.If) and unparse(s.test) == "in_array"]
+    if len(arms_if) == 1:
+        return arms_if[0], list(arms_if[0].body), list(arms_if[0].orelse), fn, "edits"
+    vmod = repo.mod("language.visitor")
+    for st in edited[0].body:
+        for c in ast.walk(st):
+            if not (isinstance(c, ast.Call) and isinstance(c.func, ast.Name)):
+                continue
+            h = vmod.defs.get(c.func.id)
+            if not isinstance(h, (ast.FunctionDef, ast.AsyncFunctionDef)):
+                continue
+            params = [a.arg for a in h.args.posonlyargs + h.args.args]
+            amap = {unparse(a): params[i] for i, a in enumerate(c.args) if i < len(params)}
+            amap.update({unparse(k.value): k.arg for k in c.keywords if k.arg})
+            if "edits" not in amap or "in_array" not in amap:
+                continue
+            flag, ename = amap["in_array"], amap["edits"]
+            body = [x for x in h.body if not (isinstance(x, ast.Expr) and isinstance(x.value, ast.Constant))]
+            for i, x in enumerate(body):
+                if isinstance(x, ast.If) and unparse(x.test) == flag:
+                    node_arm = list(x.orelse) or body[i + 1:]
+                    return x, list(x.body), node_arm, h, ename
+                if isinstance(x, ast.If) and unparse(x.test) == f"not {flag}":
+                    arr_arm = list(x.orelse) or body[i + 1:]
+                    return x, arr_arm, list(x.body), h, ename
+    raise AnalysisError("visit(): in_array arms of the edit application not found")
+
+
 def edit_sentinel(check: Check, repo: Repo) -> None:
     rule = "EDIT-SENTINEL"
     check.rule(
@@ -573,22 +609,17 @@ def edit_sentinel(check: Check, repo: Repo) -> None:
         "edit application - tests each edit value against REMOVE (and its raw twin) before storing it; "
         "an arm that stores edit values untested puts the sentinel itself into the rebuilt tree",
     )
-    fn = repo.func("language.visitor", "visit")
-    edited = [n for n in walk_body(fn) if isinstance(n, ast.If) and unparse(n.test) == "is_edited"]
-    if len(edited) != 1:
-        raise AnalysisError("visit(): `if is_edited:` block not found")
-    arms_if = [s for s in edited[0].body if isinstance(s, ast.If) and unparse(s.test) == "in_array"]
-    if len(arms_if) != 1:
-        raise AnalysisError("visit(): in_array arms of the edit application not found")
-    arms = {"array arm": arms_if[0].body, "node arm": arms_if[0].orelse}
+    anchor, arr_body, node_body, _scope, ename = _edit_arms(repo)
+    arms_if = [anchor]
+    arms = {"array arm": arr_body, "node arm": node_body}
     mod = repo.mod("language.visitor")
     for name, body in arms.items():
-        uses = [n for s in body for n in ast.walk(s) if isinstance(n, ast.Name) and n.id == "edits"]
+        uses = [n for s in body for n in ast.walk(s) if isinstance(n, ast.Name) and n.id == ename]
         # the arm may delegate to a module-level helper that receives the edits: look into it as well
         scopes: list[list[ast.stmt]] = [body]
         for s in body:
             for c in ast.walk(s):
-                if isinstance(c, ast.Call) and isinstance(c.func, ast.Name) and any(isinstance(a, ast.Name) and a.id == "edits" for a in c.args):
+                if isinstance(c, ast.Call) and isinstance(c.func, ast.Name) and any(isinstance(a, ast.Name) and a.id == ename for a in c.args):
                     helper = mod.defs.get(c.func.id)
                     if isinstance(helper, (ast.FunctionDef, ast.AsyncFunctionDef)):
                         scopes.append(helper.body)
@@ -651,17 +682,14 @@ def edit_offset(check: Check, repo: Repo) -> None:
         "removal branch) or while iterating the removals in reverse order; otherwise every removal "
         "after the first hits a shifted position",
     )
-    fn = repo.func("language.visitor", "visit")
-    edited = [n for n in walk_body(fn) if isinstance(n, ast.If) and unparse(n.test) == "is_edited"]
-    arms_if = [s for s in edited[0].body if isinstance(s, ast.If) and unparse(s.test) == "in_array"] if edited else []
-    if not arms_if:
-        raise AnalysisError("visit(): array arm of the edit application not found")
-    body = list(arms_if[0].body)
+    anchor, arr_body, _node_body, _scope, ename = _edit_arms(repo)
+    arms_if = [anchor]
+    body = list(arr_body)
     # the arm may delegate to a module-level helper that receives the edits
     vmod = repo.mod("language.visitor")
     for s in list(body):
         for c in ast.walk(s):
-            if isinstance(c, ast.Call) and isinstance(c.func, ast.Name) and any(isinstance(a, ast.Name) and a.id == "edits" for a in c.args):
+            if isinstance(c, ast.Call) and isinstance(c.func, ast.Name) and any(isinstance(a, ast.Name) and a.id == ename for a in c.args):
                 helper = vmod.defs.get(c.func.id)
                 if isinstance(helper, (ast.FunctionDef, ast.AsyncFunctionDef)):
                     body += helper.body
@@ -1460,13 +1488,9 @@ def _first_cfg_node(cfg: CFG, stmt: ast.stmt):
 
 def removed_child_is_none(check: Check, repo: Repo, rule: str = "EDIT-SENTINEL") -> None:
     """Clause of EDIT-SENTINEL: in the node arm a removed child becomes None, it is not dropped from the kwargs."""
-    fn = repo.func("language.visitor", "visit")
-    edited = [n for n in walk_body(fn) if isinstance(n, ast.If) and unparse(n.test) == "is_edited"]
-    arms_if = [s for s in edited[0].body if isinstance(s, ast.If) and unparse(s.test) == "in_array"] if edited else []
-    if len(arms_if) != 1:
-        raise AnalysisError("visit(): in_array arms of the edit application not found")
-    body = arms_if[0].orelse
-    loops = [l for s in body for l in ast.walk(s) if isinstance(l, ast.For) and "edits" in unparse(l.iter)]
+    anchor, _arr_body, body, fn, ename = _edit_arms(repo)
+    arms_if = [anchor]
+    loops = [l for s in body for l in ast.walk(s) if isinstance(l, ast.For) and ename in unparse(l.iter)]
     if not loops:
         check.ob(rule, arms_if[0], "node arm: every recorded edit is stored under its key (REMOVE as None)", False,
                  "the node arm does not go through the edits one by one, so a removed child cannot be turned into None")
